@@ -60,3 +60,148 @@ def streams(tier, seed):
 P = StreamProperty("C03", [FrameOracle], streams, RULE, ("C03",),
                    lambda ops: len(ops) >= 4 and sum(1 for o in ops if o["op"] == "new") >= 2)
 run, replay = P.run, P.replay
+
+
+# ------------------------------------------------------------------ the public registry, on the real code only
+def _registry(rng):
+    """(name, callable(data) -> result) for every public function taking a data object"""
+    import numpy as np, dnplab as dnp, warnings
+    from dnplab.math import relaxation
+    lin = lambda x, a, b: a * x + b
+
+    def reg(name, fn, need=None):
+        return (name, fn, need)
+
+    R = [
+        reg("apodize", lambda d, dim: dnp.apodize(d, dim, "exponential", lw=1.0)),
+        reg("apodize-bad-kind", lambda d, dim: dnp.apodize(d, dim, "nope")),
+        reg("fourier_transform", lambda d, dim: dnp.fourier_transform(d, dim)),
+        reg("inverse_fourier_transform", lambda d, dim: dnp.inverse_fourier_transform(d, dim)),
+        reg("phase", lambda d, dim: dnp.phase(d, dim, 30.0, -10.0)),
+        reg("phase_cycle", lambda d, dim: dnp.phase_cycle(d, dim, [0, 1])),
+        reg("phase_cycle-bad", lambda d, dim: dnp.phase_cycle(d, dim, [0, 1, 2, 3, 0, 1, 2])),
+        reg("autophase", lambda d, dim: dnp.autophase(d, dim)),
+        reg("integrate", lambda d, dim: dnp.integrate(d, dim)),
+        reg("integrate-regions", lambda d, dim: dnp.integrate(d, dim, [(0.0, 1.0), (0.5, 9.0)])),
+        reg("integrate-bad-region", lambda d, dim: dnp.integrate(d, dim, [[0.0, 1.0]])),
+        reg("cumulative_integrate", lambda d, dim: dnp.cumulative_integrate(d, dim)),
+        reg("remove_background", lambda d, dim: dnp.remove_background(d, dim, 1)),
+        reg("remove_background-regions", lambda d, dim: dnp.remove_background(d, dim, 1, [(0.0, 1.0)])),
+        reg("left_shift", lambda d, dim: dnp.left_shift(d, dim, 1)),
+        reg("normalize", lambda d, dim: dnp.normalize(d)),
+        reg("normalize-dim", lambda d, dim: dnp.normalize(d, dim=dim)),
+        reg("smooth", lambda d, dim: dnp.smooth(d, dim, 5, 2)),
+        reg("smooth-bad", lambda d, dim: dnp.smooth(d, dim, 4, 7)),
+        reg("interp", lambda d, dim: dnp.interp(d, dim, np.linspace(0.0, 1.0, 7))),
+        reg("interp-bad", lambda d, dim: dnp.interp(d, dim, np.zeros((2, 2)))),
+        reg("ndalign", lambda d, dim: dnp.ndalign(d, dim)),
+        reg("ndalign-bad", lambda d, dim: dnp.ndalign(d, dim, center=1.0)),
+        reg("average", lambda d, dim: dnp.average(d, axis=dim)),
+        reg("signal_to_noise", lambda d, dim: dnp.signal_to_noise(d, (0.0, 1.0), [(1.25, 2.0)], dim=dim)),
+        reg("signal_to_noise-bad", lambda d, dim: dnp.signal_to_noise(d, (0.0, 1.0), [("a", "b")], dim=dim)),
+        reg("reference", lambda d, dim: dnp.reference(d, dim, 1.0, 0.0)),
+        reg("pseudo_modulation", lambda d, dim: dnp.pseudo_modulation(d, 0.5, dim=dim)),
+        reg("fit", lambda d, dim: dnp.fit(lin, d.real, dim, (1.0, 0.0))["popt"]),
+        reg("fit-bad", lambda d, dim: dnp.fit(lin, d.real, dim, (1.0, 0.0, 2.0))["popt"]),
+        reg("create_complex-arrays", lambda d, dim: dnp.create_complex(d, np.real(d.values), np.imag(d.values))),
+        reg("update_axis", lambda d, dim: dnp.update_axis(d, (0.0, 1.0), dim=0, new_dims="q")),
+        reg("get_slice", lambda d, dim: dnp.get_slice(d, dim, 0)),
+        reg("np.abs", lambda d, dim: np.abs(d)),
+        reg("np.max-axis", lambda d, dim: np.max(d, axis=dim)),
+        reg("copy", lambda d, dim: d.copy()),
+        reg("real", lambda d, dim: d.real),
+        reg("getitem", lambda d, dim: d[dim, (0.25, 1.0)]),
+        reg("pow", lambda d, dim: d ** 2),
+        reg("plot", lambda d, dim: (dnp.plot(d, dim=dim), None)[1]),
+        reg("plot-bad", lambda d, dim: (dnp.plot(d, "not-a-format", dim=dim), None)[1]),
+        reg("fancy_plot", lambda d, dim: (dnp.fancy_plot(d, dim=dim), None)[1]),
+        reg("fancy_plot-bad", lambda d, dim: (dnp.fancy_plot(d, [], "t", False, "not-a-format", dim=dim), None)[1]),
+        reg("unknown-dim", lambda d, dim: dnp.integrate(d, "no_such_dim")),
+        reg("unknown-dim-s2n", lambda d, dim: dnp.signal_to_noise(d, dim="no_such_dim")),
+    ]
+    return R
+
+
+def registry_oracle(tier, seed):
+    import numpy as np, dnplab as dnp, warnings, io, contextlib, copy
+    import matplotlib
+    matplotlib.use("Agg")
+    import matplotlib.pyplot as plt
+    from oracles import deep_snap, snap_diff, shares_state
+    rng = random.Random(seed * 7919 + 103)
+    fails, n_eval, outcomes = [], 0, {}
+    shapes = [([8], 0), ([3, 8], 1), ([8, 2], 0)] + ([([2, 8, 3], 1)] if tier == "thorough" else [])
+    for shape, k in shapes:
+        for cplx in (False, True):
+            for with_attrs in (False, True):
+                for name, fn, _ in _registry(rng):
+                    dims = ["t2" if i == k else ("Average" if i == 0 else "x%d" % i) for i in range(len(shape))]
+                    if name.startswith("inverse"):
+                        dims = [("f2" if d == "t2" else d) for d in dims]
+                    dim = dims[k]
+                    vals = np.arange(1, int(np.prod(shape)) + 1, dtype=float).reshape(shape) ** 1.5
+                    vals = vals + 0.3 * np.sin(vals)
+                    if cplx:
+                        vals = vals * np.exp(0.3j)
+                    coords = [np.linspace(0.0, 2.0, s) if i == k else np.arange(s, dtype=float) for i, s in enumerate(shape)]
+                    kw = {}
+                    if with_attrs:
+                        kw = {"attrs": {"nmr_frequency": 4e8, "experiment_type": "nmr_spectrum", "lst": [1, 2]},
+                              "dnplab_attrs": {"frequency": 4e8}, "proc_attrs": [("step", {"p": [1, 2]})]}
+                    d = dnp.DNPData(vals.copy(), list(dims), [c.copy() for c in coords], **kw)
+                    before = deep_snap(d)
+                    res, err = None, None
+                    with warnings.catch_warnings():
+                        warnings.simplefilter("ignore")
+                        with contextlib.redirect_stdout(io.StringIO()):
+                            try:
+                                res = fn(d, dim)
+                            except Exception as e:  # noqa: BLE001
+                                err = type(e).__name__
+                    plt.close("all")
+                    n_eval += 1
+                    outcomes["raise" if err else "ok"] = outcomes.get("raise" if err else "ok", 0) + 1
+                    diff = snap_diff(before, deep_snap(d))
+                    if diff:
+                        key = "C03:argument-modified:%s:%s:%s" % (name, "raise" if err else "return", "+".join(diff))
+                        fails.append({"key": key, "clause": key, "ops": [{"function": name, "shape": shape, "dim_pos": k,
+                                                                         "complex": cplx, "attrs": with_attrs, "error": err}]})
+                    if isinstance(res, dnp.DNPData):
+                        sh = shares_state(res, d)
+                        if sh:
+                            key = "C03:shared-state:%s:%s" % (name, "+".join(sh))
+                            fails.append({"key": key, "clause": key, "ops": [{"function": name, "shape": shape, "dim_pos": k}]})
+    # dictionaries handed to hydration
+    hd = {"E_array": np.linspace(1, -20, 8), "E_powers": np.linspace(0.001, 0.5, 8), "T1_array": np.linspace(2.0, 2.4, 5),
+          "T1_powers": np.linspace(0.001, 0.5, 5), "T10": 2.0, "T100": 2.5, "spin_C": 100.0, "field": 350.0, "smax_model": "tethered",
+          "interpolate_method": "linear"}
+    hc = {"tcorr_bulk": 54.0, "macro_C": 100.0}
+    b1, b2 = copy.deepcopy(hd), copy.deepcopy(hc)
+    with warnings.catch_warnings():
+        warnings.simplefilter("ignore")
+        try:
+            dnp.hydration(hd, hc)
+        except Exception:
+            pass
+    n_eval += 1
+    same = lambda a, b: list(a.keys()) == list(b.keys()) and all(np.array_equal(np.asarray(a[k]), np.asarray(b[k])) for k in a)
+    if not same(b1, hd) or not same(b2, hc):
+        key = "C03:argument-modified:hydration:dictionaries"
+        fails.append({"key": key, "clause": key, "ops": [{"function": "hydration"}]})
+    return fails, n_eval, outcomes
+
+
+_base_run = P.run
+
+
+def run(tier, seed, escalate=False):
+    res = _base_run(tier, seed, escalate)
+    fails, n_eval, outcomes = registry_oracle("thorough" if escalate else tier, seed)
+    seen = {f["key"] for f in res["impl_failures"]}
+    for f in fails:
+        if f["key"] not in seen:
+            seen.add(f["key"]); res["impl_failures"].append(f)
+    res["evaluations"] += n_eval
+    res["distribution"]["registry_calls"] = n_eval
+    res["distribution"]["registry_outcomes"] = outcomes
+    return res
